@@ -40,7 +40,7 @@ def clean_by_tomo_mask_orig(self, tomo_list, tomo_masks, inplace=True, output_fi
 
     for i, t in enumerate(tomos):
         tm = self.get_motl_subset(t, reset_index=True)
-        coords = tm.get_coordinates().astype(int)
+        coords = np.floor(tm.get_coordinates()).astype(int)
         if requries_loading:
             tomo_mask = cryomap.binarize(tomo_masks[i])
 
@@ -138,9 +138,9 @@ def oracle(df, tomos, masks):
         if t in masks:
             m = masks[t]
             c = [
-                math.trunc(r["x"] + r["shift_x"]),
-                math.trunc(r["y"] + r["shift_y"]),
-                math.trunc(r["z"] + r["shift_z"]),
+                math.floor(r["x"] + r["shift_x"]),
+                math.floor(r["y"] + r["shift_y"]),
+                math.floor(r["z"] + r["shift_z"]),
             ]
             inside = all(0 <= c[k] < m.shape[k] for k in range(3))
             if inside and not (m[c[0], c[1], c[2]] > 0.5):
